@@ -603,6 +603,24 @@ func init() {
 		}
 		return &RV{T: s.T, V: ex.appendVals(sv, elems, et)}
 	})
+	setIntrinsic("reflect.Copy", func(ex *Exec, fn *ssa.Function, a []Value) Value {
+		dst, src := a[0].(*RV), a[1].(*RV)
+		if kindOf(dst.T) != kSlice && kindOf(dst.T) != kArray {
+			ex.rpanic("reflect.Copy", dst)
+		}
+		if kindOf(dst.T) == kArray {
+			ex.mustAssignable("reflect.Copy", dst)
+		}
+		ds, ok1 := dst.val().(*SliceV)
+		ss, ok2 := src.val().(*SliceV)
+		if !ok1 || !ok2 {
+			ex.unsupported("reflect.Copy on arrays/strings")
+		}
+		if !types.Identical(under(dst.T).(*types.Slice).Elem(), under(src.T).(*types.Slice).Elem()) {
+			ex.gopanic("reflect.Copy: " + rtypeString(dst.T) + " != " + rtypeString(src.T))
+		}
+		return ex.copyOp(ds, ss)
+	})
 	setIntrinsic("reflect.DeepEqual", func(ex *Exec, fn *ssa.Function, a []Value) Value {
 		ex.unsupported("reflect.DeepEqual is not modelled; use hand-written comparators")
 		return nil
